@@ -2,7 +2,7 @@
 # usage: seedtest.sh <PROP> <seed dir> [tier]   — applies the seeded patch in a scratch worktree,
 # confirms the demo fails there (and passes on the clean tree), runs the check against it.
 PROP=$1; DIR=$2; TIER=${3:-quick}
-WT=/tmp/seedwt_$$
+WT=/tmp/seedwt_$$_$PROP
 git -C /repo worktree add -q --detach $WT HEAD || exit 2
 trap 'git -C /repo worktree remove --force $WT' EXIT
 echo "== demo on clean tree"; (cd $DIR && PYTHONPATH=$WT /venv/bin/python demo.py >/dev/null 2>&1; echo "exit $?")
